@@ -120,6 +120,11 @@ def harness(L, sw, ch, sr, K, mode, group):
                 runs["sw"] = list(core.split(data, sampling_rate=sr, sample_width=sw, sw=(4 if sw != 4 else 2), channels=ch, analysis_window=aw, validator=mkval(), **skw))
                 stage = "ch"
                 runs["ch"] = list(core.split(data, sampling_rate=sr, sample_width=sw, channels=ch, ch=ch + 1, analysis_window=aw, validator=mkval(), **skw))
+                # the same three with the short alias written first: precedence must not depend on keyword order
+                stage = "alias written first"
+                runs["sr-first"] = list(core.split(data, sr=sr + 1, sw=sw, ch=ch, sampling_rate=sr, analysis_window=aw, validator=mkval(), **skw))
+                runs["sw-first"] = list(core.split(data, sw=(4 if sw != 4 else 2), sr=sr, ch=ch, sample_width=sw, analysis_window=aw, validator=mkval(), **skw))
+                runs["ch-first"] = list(core.split(data, ch=ch + 1, sr=sr, sw=sw, channels=ch, analysis_window=aw, validator=mkval(), **skw))
                 stage = "aw"
                 runs["aw"] = list(core.split(data, sr=sr, sw=sw, ch=ch, analysis_window=aw, aw=SymRat(Bq + 4, 4 * sr), validator=mkval(), **skw))
                 stage = "val"
@@ -287,6 +292,9 @@ def replay_fn(c):
             runs["sampling_rate and sr"] = lambda: ak.split(data, sampling_rate=sr, sr=sr + 1, sample_width=sw, channels=ch, analysis_window=aw, validator=val(), **skw)
             runs["sample_width and sw"] = lambda: ak.split(data, sampling_rate=sr, sample_width=sw, sw=(4 if sw != 4 else 2), channels=ch, analysis_window=aw, validator=val(), **skw)
             runs["channels and ch"] = lambda: ak.split(data, sampling_rate=sr, sample_width=sw, channels=ch, ch=ch + 1, analysis_window=aw, validator=val(), **skw)
+            runs["sr written before sampling_rate"] = lambda: ak.split(data, sr=sr + 1, sw=sw, ch=ch, sampling_rate=sr, analysis_window=aw, validator=val(), **skw)
+            runs["sw written before sample_width"] = lambda: ak.split(data, sw=(4 if sw != 4 else 2), sr=sr, ch=ch, sample_width=sw, analysis_window=aw, validator=val(), **skw)
+            runs["ch written before channels"] = lambda: ak.split(data, ch=ch + 1, sr=sr, sw=sw, channels=ch, analysis_window=aw, validator=val(), **skw)
             runs["analysis_window and aw"] = lambda: ak.split(data, sr=sr, sw=sw, ch=ch, analysis_window=aw, aw=(Bq + 4) / (4 * sr), validator=val(), **skw)
             runs["validator and val"] = lambda: ak.split(data, sr=sr, sw=sw, ch=ch, analysis_window=aw, validator=val(), val=lambda f: False, **skw)
             runs["audio_format and fmt"] = lambda: ak.split(dat, analysis_window=aw, validator=val(), audio_format="wav", fmt="raw", **skw)
